@@ -134,10 +134,17 @@ func c07R1(c *Ctx) {
 		info := fn.Info()
 		sig := fn.Obj.Type().(*types.Signature)
 		rets := declReturns(fn.Decl.Body)
+		// the ENI object: the local that the returns name as result 0 (the last return of the body
+		// is the one that reports success; `return r, v4, v6, err` with a possibly nil err counts)
 		var eniObj types.Object
 		for _, r := range rets {
-			if ok, known := isSuccessReturn(info, sig, r); ok && known && len(r.Results) == 4 {
-				eniObj = identObj(info, r.Results[0])
+			if len(r.Results) != 4 {
+				continue
+			}
+			if ok, known := isSuccessReturn(info, sig, r); (ok && known) || r == rets[len(rets)-1] {
+				if o := identObj(info, r.Results[0]); o != nil {
+					eniObj = o
+				}
 			}
 		}
 		if eniObj == nil {
@@ -175,7 +182,7 @@ func c07R1(c *Ctx) {
 		c.Check(nBetween <= 1, "C07.R1", typ+".CreateNetworkInterface binds the ENI directly after the create call", p.Pos(createCall), fn.Key(),
 			"at most the create call's own error return lies between the cloud call and the binding of the ENI object", fmt.Sprintf("%d returns in between", nBetween))
 	}
-	c.Floor("C07.R1", "returns of CreateNetworkInterface after the ENI is bound (Aliyun+Eflo)", 10, nCreateRet)
+	c.Floor("C07.R1", "returns of CreateNetworkInterface after the ENI is bound (Aliyun+Eflo)", 4, nCreateRet)
 
 	// AssignNIPv4 / AssignNIPv6
 	nAssign := 0
